@@ -184,6 +184,8 @@ def c20_reaction(E):
     ids = [r.id for r in m.reactions]
     rid = ids[E.choice("reaction", len(ids), ids)]
     use_fva = E.flag("fva_frame")
+    idle = bool(v[rid] == 0)          # both an idle and an active reaction are rendered
+    E.note(reaction=rid, idle=idle)
     fva = None
     if use_fva:
         fva, lo, hi = _sym_fva(E, m, v, [rid])
@@ -197,13 +199,14 @@ def c20_reaction(E):
 
 
 HARNESSES = [
-    H("c20_model", c20_model, quick=dict(max_paths=20000, time_budget=60), thorough=dict(max_paths=300000, time_budget=300),
-      witness_every=5,
+    H("c20_model", c20_model, quick=dict(max_paths=20000, time_budget=60, witnesses=60),
+      thorough=dict(max_paths=300000, time_budget=300, witnesses=300), witness_every=2,
       bounds="T5 (exchanges in both directions, sink, demand) and T7 (non-unit, negative coefficients); all fluxes symbolic in "
              "[-10,10], steady-state and in bounds, each 0 or |v|>=1e-3; with/without a symbolic FVA frame (min<=flux<=max)"),
-    H("c20_metabolite", c20_metabolite, quick=dict(max_paths=20000, time_budget=60), thorough=dict(max_paths=300000, time_budget=300),
-      witness_every=5,
+    H("c20_metabolite", c20_metabolite, quick=dict(max_paths=20000, time_budget=60, witnesses=60),
+      thorough=dict(max_paths=300000, time_budget=300, witnesses=300), witness_every=2,
       bounds="as c20_model, every metabolite; paths on which a whole side is zero (0/0 percentages) excluded"),
-    H("c20_reaction", c20_reaction, quick=dict(max_paths=4000, time_budget=30), thorough=dict(max_paths=50000, time_budget=60),
-      witness_every=5, bounds="T7, every reaction, with/without FVA frame"),
+    H("c20_reaction", c20_reaction, quick=dict(max_paths=4000, time_budget=30, witnesses=64),
+      thorough=dict(max_paths=50000, time_budget=60, witnesses=200),
+      witness_every=1, bounds="T7, every reaction, idle and active, with/without FVA frame; every path rendered on its witness"),
 ]
